@@ -686,7 +686,10 @@ class Polyhedron(Shape3D):
         points = self.vertices[1:] - self.vertices[0]
         half_point_lengths = np.sum(points * points, axis=1) / 2
         x, resids, _, _ = np.linalg.lstsq(points, half_point_lengths, None)
-        if len(self.vertices) > 4 and not np.isclose(resids, 0):
+        # The residual (a length to the fourth power) is compared with the extent
+        # of the shape so that the test does not depend on its length scale.
+        extent_sq = np.sum(np.ptp(self.vertices, axis=0) ** 2)
+        if len(self.vertices) > 4 and not np.isclose(resids / extent_sq**2, 0):
             raise RuntimeError("No circumsphere for this polyhedron.")
 
         return Sphere(np.linalg.norm(x), x + self.vertices[0])
@@ -723,7 +726,10 @@ class Polyhedron(Shape3D):
         b = np.sum(self.normals * self.vertices[first_vertices], axis=-1)
         a = np.hstack((self.normals, np.ones((self.num_faces, 1))))
         x, resids, _, _ = np.linalg.lstsq(a, b, None)
-        if len(self.vertices) > 4 and not np.isclose(resids, 0):
+        # The residual (a squared length) is compared with the extent of the shape
+        # so that the test does not depend on its length scale.
+        extent_sq = np.sum(np.ptp(self.vertices, axis=0) ** 2)
+        if len(self.vertices) > 4 and not np.isclose(resids / extent_sq, 0):
             raise RuntimeError("No insphere for this polyhedron.")
 
         return Sphere(x[3], x[:3])
